@@ -25,6 +25,7 @@ import PromVerif.Spec.Textfile
 import PromVerif.Lemmas.Textfile
 import PromVerif.Lemmas.TextfileRun
 import PromVerif.Lemmas.TextfileName
+import PromVerif.Lemmas.TextfileWriters
 
 namespace PromVerif.Props.C18
 open PromVerif.Generated.Textfile PromVerif.Model.Textfile PromVerif.Spec.Textfile
@@ -212,6 +213,96 @@ theorem two_writers_each_complete (P1 P2 : Params) (htgt : P2.target = P1.target
     rw [execV_normalRun] at a b
     exact ⟨congrArg View.file a, congrArg View.file b⟩
 
+/-! ### any number of concurrent writers, any schedule
+
+`ws` is any list of writers (a call's parameters + at most one fault of any class at any of its effects; a fault position
+past the end = no fault).  A schedule is any list of writer indices saying who executes its next effect; every prefix of a
+schedule is a schedule, so a statement "for every schedule" is a statement about every instant; a writer that is not
+scheduled again has been killed at that point, and the schedule ending is everything being killed.  `Independent` is the
+hypothesis that makes the writers independent: one target, temporary names different from it (`tmp_ne_target`) and from
+each other (`tmp_names_distinct`: pid × thread ident).  Proved by the invariant `InvN` over the shared file-system state,
+by induction on the schedule (`Lemmas/TextfileMany.lean`) — nothing is enumerated. -/
+
+/-- ANY NUMBER OF WRITERS, ANY SCHEDULE, EVERY INSTANT: the target is what it was before anybody moved (absent or the
+old content) or the COMPLETE exposition of one of the writers -/
+theorem writers_never_partial (T : Path) (ws : List Writer) (ind : Independent T ws) (fs0 : Fs) (sch : List Nat) :
+    (runSched sch (initN fs0 ws)).fs.get T = fs0.get T ∨
+    ∃ w ∈ ws, (runSched sch (initN fs0 ws)).fs.get T = some w.1.new := by
+  obtain ⟨_, h⟩ := InvN.run (ind.distinctN fs0) sch (initN_inv ind fs0)
+  rcases h with h | ⟨i, hi, h⟩
+  · left; exact h
+  · right
+    have hi' : i < ws.length := by simpa using hi
+    rw [dataOf_get fs0 ws i hi'] at h
+    exact ⟨ws[i], List.getElem_mem hi', h⟩
+
+/-- for every writer `i`, at every instant `c` of every schedule:
+ 1. the rename instant — when `i`'s next effect is its (completed) rename, the target holds `i`'s OWN complete exposition
+    right after it, whatever the others have done in between;
+ 2. a writer whose call raises (one of its effects faults) never changes the target, at any of its steps;
+ 3. once `i` has finished — returned, or raised an exception its handler catches — no temporary file of its own is left,
+    whatever the others are still doing. -/
+theorem writers_each_complete_or_clean (T : Path) (ws : List Writer) (ind : Independent T ws) (fs0 : Fs)
+    (sch : List Nat) (i : Nat) (hi : i < ws.length) :
+    (∀ s r, remOf (runSched sch (initN fs0 ws)) i = s :: r → isRen s = true →
+        (stepN i (runSched sch (initN fs0 ws))).fs.get T = some ws[i].1.new) ∧
+    (ws[i].2.pos < (body ws[i].1).length →
+        (stepN i (runSched sch (initN fs0 ws))).fs.get T = (runSched sch (initN fs0 ws)).fs.get T) ∧
+    (remOf (runSched sch (initN fs0 ws)) i = [] →
+        (ws[i].2.pos < (body ws[i].1).length → ws[i].2.exc.cls.isException = true) →
+        (runSched sch (initN fs0 ws)).fs.get ws[i].1.tmp = none) := by
+  have d := ind.distinctN fs0
+  obtain ⟨inv, _⟩ := InvN.run d sch (initN_inv ind fs0)
+  have hi' : i < (dataOf fs0 ws).length := by simpa using hi
+  refine ⟨?_, ?_, ?_⟩
+  · intro s r hrem hs
+    have := inv.step_ren d i hi' hrem hs
+    rw [dataOf_get fs0 ws i hi] at this
+    exact this
+  · intro hpos
+    apply inv.step_noRen d i
+    intro s hs
+    have hsuf := remOf_suffix i sch (initN fs0 ws)
+    rw [initN_rem fs0 ws i hi] at hsuf
+    exact faultedRun_noRen hpos s (hsuf.subset hs)
+  · intro hdone hexc
+    have hf := inv.fin i hi'
+    rw [hdone, dataOf_get fs0 ws i hi] at hf
+    have hfile := congrArg View.file hf
+    simp only [execV_nil, viewOf, view] at hfile
+    rw [hfile]
+    apply execV_run_no_tmp
+    intro hp
+    have := hexc hp
+    simp [catches, caughtClass, this]
+
+/-- the two-writer statement as the instance `ws = [w₁, w₂]` of the general one -/
+theorem two_writers_never_partial_sched (w1 w2 : Writer) (htgt : w2.1.target = w1.1.target)
+    (h12 : w1.1.tmp ≠ w2.1.tmp) (h1 : w1.1.tmp ≠ w1.1.target) (h2 : w2.1.tmp ≠ w1.1.target) (fs0 : Fs) (sch : List Nat) :
+    OldOrNew2 (fs0.get w1.1.target) w1.1.new w2.1.new ((runSched sch (initN fs0 [w1, w2])).fs.get w1.1.target) := by
+  have ind : Independent w1.1.target [w1, w2] := by
+    refine ⟨?_, ?_, ?_⟩
+    · intro i h
+      match i, h with
+      | 0, _ => rfl
+      | 1, _ => exact htgt
+    · intro i h
+      match i, h with
+      | 0, _ => exact h1
+      | 1, _ => exact h2
+    · intro i j hi hj e
+      match i, j, hi, hj with
+      | 0, 0, _, _ => exact absurd rfl e
+      | 0, 1, _, _ => exact h12
+      | 1, 0, _, _ => exact fun x => h12 x.symm
+      | 1, 1, _, _ => exact absurd rfl e
+  rcases writers_never_partial _ _ ind fs0 sch with h | ⟨w, hw, h⟩
+  · exact Or.inl h
+  · simp only [List.mem_cons, List.not_mem_nil, or_false] at hw
+    rcases hw with rfl | rfl
+    · exact Or.inr (Or.inl h)
+    · exact Or.inr (Or.inr h)
+
 /-! ### non-vacuity: concrete, non-trivial instances of the hypotheses -/
 
 /-- registry of two collectors, the write split into three pieces (first flushed at once, second buffered), an
@@ -243,5 +334,45 @@ example : Interleave (normalRun exP) (normalRun exP2) (merge [true, false, false
 /-- writer 2 renames in the middle of writer 1's call; writer 1's rename comes last and wins -/
 example : (exec2 (merge [true, false, false, true, false, false, false, false] (normalRun exP) (normalRun exP2))
     ⟨exC.fs, {}, {}⟩).fs = [("m.prom".toList, [1, 2, 3, 4, 5]), ("other".toList, [7])] := by decide
+
+/-! three writers, one of them faulted -/
+
+def exP3 : Params :=
+  { target := "m.prom".toList, tmp := tmpName tmpPathParts "m.prom".toList 13 13 3, collectors := [[7, 7]], lastFlush := false }
+
+/-- writer 0 and writer 2 complete, writer 1's `close` raises OSError after one byte reached its temporary file -/
+def exWs : List Writer := [(exP, ⟨99, ⟨.osError, 0⟩, 0⟩), (exP2, ⟨4, ⟨.osError, 5⟩, 1⟩), (exP3, ⟨99, ⟨.osError, 0⟩, 0⟩)]
+
+example : Independent "m.prom".toList exWs := by
+  refine ⟨?_, ?_, ?_⟩
+  · intro i h
+    match i, h with
+    | 0, _ => rfl
+    | 1, _ => rfl
+    | 2, _ => rfl
+  · intro i h
+    match i, h with
+    | 0, _ => exact tmp_ne_target _ _ _ _
+    | 1, _ => exact tmp_ne_target _ _ _ _
+    | 2, _ => exact tmp_ne_target _ _ _ _
+  · intro i j hi hj e
+    match i, j, hi, hj with
+    | 0, 0, _, _ => exact absurd rfl e
+    | 1, 1, _, _ => exact absurd rfl e
+    | 2, 2, _, _ => exact absurd rfl e
+    | 0, 1, _, _ => exact tmp_names_distinct _ _ _ _ _ _ _ (by decide)
+    | 1, 0, _, _ => exact tmp_names_distinct _ _ _ _ _ _ _ (by decide)
+    | 0, 2, _, _ => exact tmp_names_distinct _ _ _ _ _ _ _ (by decide)
+    | 2, 0, _, _ => exact tmp_names_distinct _ _ _ _ _ _ _ (by decide)
+    | 1, 2, _, _ => exact tmp_names_distinct _ _ _ _ _ _ _ (by decide)
+    | 2, 1, _, _ => exact tmp_names_distinct _ _ _ _ _ _ _ (by decide)
+
+/-- round-robin until everybody is done: writer 2 (3 bytes `[7,7]`… shortest call) renames first, writer 0 last and wins;
+the faulted writer 1 has cleaned up; the stale file of writer 0's name and the unrelated file are as expected -/
+example : (runSched ((List.range 40).map (· % 3)) (initN exC.fs exWs)).fs
+    = [("m.prom".toList, [1, 2, 3, 4, 5]), ("other".toList, [7])] := by decide
+/-- cut in the middle (12 moves): the target is still the old content and all three temporary files exist -/
+example : ((runSched ((List.range 12).map (· % 3)) (initN exC.fs exWs)).fs.get "m.prom".toList = some [9, 9]) ∧
+    ((runSched ((List.range 12).map (· % 3)) (initN exC.fs exWs)).fs.map (·.1)).length = 5 := by decide
 
 end PromVerif.Props.C18
